@@ -186,7 +186,9 @@ def execute(plan):
         v_addr = np.array(ss.Bus.v.a)
         corrupt = plan.get('corrupt')
         if corrupt:
-            b = int(corrupt['bus_frac'] * nb) % nb
+            # an isolated bus has its equations neutralised: corrupting its value is not a corruption of the hand-over
+            live = [k for k in range(nb) if k not in set(int(i) for i in ss.Bus.islanded_buses)]
+            b = live[int(corrupt['bus_frac'] * len(live)) % len(live)]
             if corrupt['kind'] == 'v':
                 ss.PFlow.y_sol[v_addr[b]] *= (1 + corrupt['amount'])
             elif corrupt['kind'] == 'v_small':
